@@ -560,6 +560,8 @@ class Network(ElementBase):
 
         # dynamics
         for origin in self.origins:
+            if not origin.has_states:  # e.g., ideal origins have no dynamics
+                continue
             origin.step(
                 net=self,
                 engine=engine,
